@@ -218,6 +218,14 @@ var semCases = []semCase{
 	{"description-not-first", "package foo.v1\n\nobject Foo {\n  field a string\n  | late description\n}\n"},
 	{"name-with-dot", "package foo.v1\n\nservice Part {\n  method Do.x {\n    httpMethod = \"PUT\"\n    httpPath = \"/x\"\n    request {\n    }\n    response {\n      field m map:enum {\n        option A\n      }\n    }\n  }\n}\n"},
 	{"type-named-like-subpackage", "package foo.v1\n\nenum topic {\n  option upsert\n}\n\x00FILE foo/v1/t.j5s\x00package foo.v1\n\ntopic Pub publish {\n  message M {\n  }\n}\n"},
+	{"import-version-first", "package foo.v1\n\nimport v2.thing\n\nobject Foo {\n  field a string\n}\n"},
+	{"import-version-first-versioned", "package foo.v1\n\nimport v1.foo.v1\n\nobject Foo {\n  field a object:foo.Thing\n}\n"},
+	{"import-version-only", "package foo.v1\n\nimport v1\n\nobject Foo {\n  field a string\n}\n"},
+	{"import-subpackage", "package foo.v1\n\nimport bar.v1.service\n\nobject Foo {\n  field a object:bar.Thing\n}\n"},
+	{"import-unversioned", "package foo.v1\n\nimport bar.baz\n\nobject Foo {\n  field a object:bar.Thing\n}\n"},
+	{"import-single-element", "package foo.v1\n\nimport bar\n\nobject Foo {\n  field a object:bar.Thing\n}\n"},
+	{"import-version-first-alias", "package foo.v1\n\nimport v2.thing : t\n\nobject Foo {\n  field a object:t.Thing\n}\n"},
+	{"import-own-package", "package foo.v1\n\nimport foo.v1\n\nobject Foo {\n  field a object:foo.Foo\n}\n"},
 	{"unterminated-body", "package foo.v1\n\nobject Foo {\n  field a string\n"},
 	{"stray-close", "package foo.v1\n\nobject Foo {\n}\n}\n"},
 }
@@ -374,7 +382,17 @@ func mutateTokens(h *vh.H, text string) string {
 	n := 1 + h.Rng.IntN(3)
 	for k := 0; k < n && len(toks) > 0; k++ {
 		i := h.Rng.IntN(len(toks))
-		switch h.Rng.IntN(6) {
+		switch h.Rng.IntN(7) {
+		case 6: // reorder the elements of a dotted name (foo.v1 -> v1.foo): the nearest dotted token at or after i
+			for j := 0; j < len(toks); j++ {
+				t := toks[(i+j)%len(toks)]
+				if parts := strings.Split(t, "."); len(parts) > 1 && !strings.HasPrefix(t, "\"") {
+					a, b := h.Rng.IntN(len(parts)), h.Rng.IntN(len(parts))
+					parts[a], parts[b] = parts[b], parts[a]
+					toks[(i+j)%len(toks)] = strings.Join(parts, ".")
+					break
+				}
+			}
 		case 0: // delete
 			toks = append(toks[:i], toks[i+1:]...)
 		case 1: // duplicate
@@ -392,6 +410,41 @@ func mutateTokens(h *vh.H, text string) string {
 		}
 	}
 	return strings.Join(toks, "")
+}
+
+// importShapeText: one file whose imports have arbitrary shapes (version element first / in the middle / missing,
+// one element, sub-packages, aliases, file paths), used or not. None of the imported packages exists: the
+// compiler has to answer with a positioned error (or accept the file when nothing is used), never crash.
+func importShapeText(h *vh.H) string {
+	elems := []string{"v1", "v2", "v10", "foo", "bar", "thing", "service", "v1beta", "V1"}
+	var sb strings.Builder
+	sb.WriteString("package foo.v1\n\n")
+	var prefixes []string
+	for k, n := 0, 1+h.Rng.IntN(3); k < n; k++ {
+		var parts []string
+		for j, m := 0, 1+h.Rng.IntN(4); j < m; j++ {
+			parts = append(parts, vh.Pick(h, elems))
+		}
+		name := strings.Join(parts, ".")
+		switch h.Rng.IntN(6) {
+		case 0:
+			sb.WriteString("import " + name + " : al" + fmt.Sprint(k) + "\n")
+			prefixes = append(prefixes, "al"+fmt.Sprint(k))
+		case 1:
+			sb.WriteString("import \"" + strings.Join(parts, "/") + "/x.proto\"\n")
+			prefixes = append(prefixes, name)
+		default:
+			sb.WriteString("import " + name + "\n")
+			prefixes = append(prefixes, name)
+			prefixes = append(prefixes, parts...)
+		}
+	}
+	sb.WriteString("\nobject Foo {\n  field a string\n")
+	for k, n := 0, h.Rng.IntN(3); k < n; k++ {
+		sb.WriteString(fmt.Sprintf("  field r%d %s:%s.Thing\n", k, vh.Pick(h, []string{"object", "enum", "oneof"}), vh.Pick(h, prefixes)))
+	}
+	sb.WriteString("}\n")
+	return sb.String()
 }
 
 func randomBytes(h *vh.H) string {
@@ -496,6 +549,9 @@ func genTotalRandom(h *vh.H) string {
 		p.Files = append(p.Files[:fi], p.Files[fi+1:]...)
 		return srcOp("tokmut", f.Path, mutateTokens(h, text), b)
 	case 6, 7:
+		if h.Chance(1, 4) {
+			return srcOp("sem-import-shape", "foo/v1/a.j5s", importShapeText(h), &j5sgen.Bundle{})
+		}
 		// a hand-written semantic case, token-mutated once more (errors near errors)
 		sc := vh.Pick(h, semCases)
 		// only the text of the main file is mutated: the `\x00FILE <name>\x00` trailer that carries further
